@@ -99,7 +99,14 @@ def print_axioms(theorems, imports=("Props",)):
     return res, out
 
 
-def audit(theorems):
+def leanchecker():
+    """Independent re-check of the compiled .olean files (thorough tier)."""
+    p = subprocess.run(["lake", "env", "leanchecker", "Props", "TM", "GM", "VM", "VD", "TH"], cwd=LEAN,
+                       capture_output=True, text=True, timeout=3000)
+    return p.returncode == 0, (p.stdout + p.stderr)[-1500:]
+
+
+def audit(theorems, tier="quick"):
     """Proof obligations of one property.  Returns dict with obligations/discharged and problems."""
     problems = []
     ok, log = lake_build()
@@ -109,6 +116,11 @@ def audit(theorems):
     hits = grep_forbidden()
     if hits:
         problems.append("forbidden construct in Lean sources: " + "; ".join(hits[:5]))
+    if tier == "thorough":
+        ok, log = leanchecker()
+        if not ok:
+            problems.append("leanchecker rejected the compiled modules: " + log)
+            hits = hits or ["leanchecker"]
     axs, raw = print_axioms(theorems)
     discharged = 0
     table = {}
